@@ -9,6 +9,7 @@ import (
 	"path/filepath"
 	"sort"
 	"strings"
+	"syscall"
 
 	"tags.cncf.io/container-device-interface/pkg/cdi"
 )
@@ -71,4 +72,32 @@ func OpenFDs() int {
 		return -1
 	}
 	return len(ents) - 1 // the descriptor used for reading the directory
+}
+
+// WatchDiag describes, for a failure report, which inodes this process's
+// inotify descriptors watch and which inodes the given paths have now.
+func WatchDiag(paths []string) string {
+	var sb strings.Builder
+	ents, _ := os.ReadDir("/proc/self/fd")
+	for _, e := range ents {
+		l, err := os.Readlink(filepath.Join("/proc/self/fd", e.Name()))
+		if err != nil || l != "anon_inode:inotify" {
+			continue
+		}
+		b, _ := os.ReadFile(filepath.Join("/proc/self/fdinfo", e.Name()))
+		for _, line := range strings.Split(string(b), "\n") {
+			if strings.HasPrefix(line, "inotify wd:") {
+				fmt.Fprintf(&sb, "  fd %s: %s\n", e.Name(), line)
+			}
+		}
+	}
+	for _, p := range paths {
+		var st syscall.Stat_t
+		if err := syscall.Lstat(p, &st); err != nil {
+			fmt.Fprintf(&sb, "  %s: %v\n", p, err)
+		} else {
+			fmt.Fprintf(&sb, "  %s: ino %x\n", p, st.Ino)
+		}
+	}
+	return sb.String()
 }
